@@ -489,7 +489,9 @@ func zzC13YConstant(e *zzC13YEnv, v int) {
 
 // 6: Package.Exports / describe / LoadForm follow unexport
 func zzC13YExportsList(e *zzC13YEnv, v int) {
-	x := e.fresh()
+	// (concrete value: describe prints the variables of the package, and printing a symbolic integer forks
+	// on its digits)
+	x := int64(4711)
 	e.run(`(in-package "PA") (defvar v zz0) (defvar u zz0) (export 'v) (export 'u)`, x)
 	vrt.Reach("compared")
 	pa := slip.FindPackage(e.pa)
